@@ -182,8 +182,8 @@ class World:
         self._arm_save_failure(save_fails)
         self.loop.create_connection = self._create_connection
         self.loop.run_in_executor = self._inline_executor
-        self.gw.on_conn_made = lambda gw: (self.made.append({"t": self.clock.t, "gw": gw, "cid": self._current_cid()}), self.log.append((self.clock.t, "on_conn_made")))[0]
-        self.gw.on_conn_lost = lambda gw, exc: (self.lost.append({"t": self.clock.t, "gw": gw, "exc": exc}), self.log.append((self.clock.t, "on_conn_lost", repr(exc))))[0]
+        self.cb_epoch = 0
+        self.swap_callbacks(first=True)
         self.stopped_at = None
 
     def close(self):
@@ -293,6 +293,23 @@ class World:
     def start(self):
         self.loop.run_until_complete(self.gw.start())
         self.settle()
+
+    def swap_callbacks(self, first=False):
+        """The application assigns new on_conn_made / on_conn_lost callbacks (documented attributes)."""
+        if not first:
+            self.cb_epoch += 1
+        epoch = self.cb_epoch
+
+        def made(gw):
+            self.made.append({"t": self.clock.t, "gw": gw, "cid": self._current_cid(), "epoch": epoch, "current": self.cb_epoch})
+            self.log.append((self.clock.t, "on_conn_made"))
+
+        def lost(gw, exc):
+            self.lost.append({"t": self.clock.t, "gw": gw, "exc": exc, "epoch": epoch, "current": self.cb_epoch})
+            self.log.append((self.clock.t, "on_conn_lost", repr(exc)))
+
+        self.gw.on_conn_made = made
+        self.gw.on_conn_lost = lost
 
     def _arm_save_failure(self, save_fails):
         self.stop_raised = None
